@@ -27,7 +27,8 @@ BOP = {"+": "OAdd", "-": "OSub", "*": "OMul", "/": "ODiv", "%": "OMod", "==": "O
 FINDING_IDS = ["C18-empty-value-matcher-dropped", "C18-absent-label-matcher-ignored", "C18-regex-matcher-unanchored",
                "C18-rate-subsecond-range-integer-division", "C18-range-query-aggregation-over-offset",
                "C18-range-function-step-greater-than-range", "C18-resets-empty-window-zero",
-               "C18-absent-over-time-offset-range-query", "C18-absent-negative-matcher-on-absent-label"]
+               "C18-absent-over-time-offset-range-query", "C18-absent-negative-matcher-on-absent-label",
+               "C18-range-binop-pairs-next-series-after-end"]
 
 
 _PORT_LOCK = None   # keeps the flock on the chosen port block for the life of this process
@@ -209,7 +210,10 @@ def main(ck):
         return replay(ck, binp, srv, conf, wdir, port)
     nds, ncases = (4, 80) if ck.tier == "quick" else (24, 250)
     ck.log("harness: %d data sets x %d cases" % (nds, ncases))
-    rc, out = ck.run([binp, "run", srv, conf, wdir, str(port), str(nds), str(ncases)], timeout=3000,
+    cdir = os.path.join(ck.verif, "corpus", PID)
+    corpus = sorted(os.path.join(cdir, f) for f in os.listdir(cdir) if f.endswith(".json")) if os.path.isdir(cdir) else []
+    ck.cov["corpus_cases"] = len(corpus)
+    rc, out = ck.run([binp, "run", srv, conf, wdir, str(port), str(nds), str(ncases)] + corpus, timeout=3000,
                      env={"HOME": ck.work})   # the repository's default logger writes under $HOME/.openGemini
     ck.log("harness done rc=%d" % rc)
     cases, datasets, done = [], [], None
